@@ -759,6 +759,9 @@ func driverConcat(c *Ctx) {
 		case 6:
 			// a message with many variables, then messages that use the same names again
 			cnt := []int{8, 16, 17, 31, 32, 33, 40, 64, 65, 100, 129, 257}[g.pick(12)]
+			if i%64 == 6 {
+				cnt = []int{1025, 1030, 2100}[g.pick(3)] // more names than any fixed table would hold
+			}
 			var sb strings.Builder
 			sb.WriteString("S1F1 W <L")
 			for k := 0; k < cnt; k++ {
@@ -772,6 +775,9 @@ func driverConcat(c *Ctx) {
 				default:
 					fmt.Fprintf(&sb, " <L <F4 1.5 slot%d>>", k)
 				}
+			}
+			if g.pick(2) == 0 {
+				sb.WriteString(" <L <B tail9> ...>") // a repeat marker of its own: the numbering starts again in the next message
 			}
 			sb.WriteString("> .")
 			big := sb.String()
@@ -821,6 +827,11 @@ func driverConcat(c *Ctx) {
 				if !strings.HasSuffix(t, ".") {
 					continue
 				}
+			}
+			if g.pick(5) == 0 {
+				// a character in front of the text that an editor or a file concatenation may leave there: the part is used
+				// if the parser accepts it alone
+				t = []string{"\ufeff", "\u00a0", "\f", "\v", "\u0085", "\u200b", "\u2028", "\u3000", "\ufeff\n", "\x1a"}[g.pick(10)] + t
 			}
 			_, errs, _ := sml.Parse(t)
 			if len(errs) == 0 && strings.HasSuffix(t, ".") {
@@ -892,6 +903,15 @@ func hostileCases(seed int64, tier string) []string {
 	add(strings.Repeat("S1F1 W .\n", 5000))
 	add("S1F1 W H->E <L " + strings.Repeat("<U1 1> ", 20000) + "> .")
 	add("S1F1 W H->E <U1 " + strings.Repeat("1 ", 50000) + "> .")
+	// very many tokens of one kind in a row, with nothing in between that the parser takes out of the lexer's channel for
+	// itself: comment lines (banners, commented-out messages), blank lines, terminators
+	for _, n := range []int{31, 32, 33, 34, 63, 64, 65, 100, 1000, 4097} {
+		cm := strings.Repeat("// commented out: S1F1 W <L> .\n", n)
+		add(cm + "S1F1 W H->E <U1 1> .")
+		add("S1F1 W .\n" + cm + "S1F3 W <L <U1 1>\n" + strings.Repeat("  // inside a list\r\n\n", n) + "> .\n" + strings.Repeat("\t//\n", n) + "// the end, no line break")
+		add("S1F1 W H->E <A[2" + strings.Repeat("\n// in a size\n", n) + "] \"ab\"> .")
+		add(strings.Repeat("\n", n) + "S1F1 W" + strings.Repeat(" \n", n) + "." + strings.Repeat("\n", n))
+	}
 	// deep nesting
 	depths := []int{100, 1000, 5000}
 	if tier == "thorough" {
